@@ -495,6 +495,12 @@ def corpus():
     seeds = _seeds(rng, ns)
     out.append({'kind': 'file', 'files': [os.path.join(os.path.dirname(os.path.dirname(os.path.abspath(__file__))), 'data', 'c15_terms_odes.cellml')], 'seeds': seeds,
                 'perms': list(PERM_KINDS), 'perm_seed': rng.randrange(10 ** 9), 'perm_seeds': [seeds[-1]]})
+    # past disagreement (thorough tier): `offset = -(-2.5)` reaches Model.graph as a bare Quantity (PARAMETER), no leaf lost
+    import json
+    doc = json.load(open(os.path.join(os.path.dirname(os.path.dirname(os.path.abspath(__file__))), 'data', 'c15_negneg_doc.json')))
+    seeds = _seeds(rng, 2)
+    out.append({'kind': 'gen', 'doc': doc, 'seeds': seeds, 'perms': list(PERM_KINDS), 'perm_seed': rng.randrange(10 ** 9),
+                'perm_seeds': [seeds[-1]]})
     return out
 
 
@@ -661,8 +667,14 @@ def compare_dump(label, dump, rep):
         return None         # SymPy cancelled a reference (x - x, 0*x after substitution): the graph queries are not compared
     #                         (nor get_derived_quantities: `z = 10 + (I - I)` reaches Model.graph as the bare Quantity 10, so z
     #                         is PARAMETER for the implementation and COMPUTED for the model, which does not simplify)
-    if _names(parts['derived']) != dump['derived']:
-        return '%s: derived differ: model %s, implementation %s' % (label, _names(parts['derived'])[:12], dump['derived'][:12])
+    # SymPy may also collapse a right-hand side to the bare Quantity without losing a leaf (`-(-2.5)` reaches
+    # Model.graph as the Quantity 2.5): that left-hand side is PARAMETER for the implementation, by its own rule
+    # `isinstance(equation.rhs, Quantity)`, and COMPUTED for the model, which does not simplify. `eq_const` says which
+    # equations of the implementation have a bare Quantity on the right.
+    bare = {lhs for lhs, c in zip(dump['eq_lhs'], dump.get('eq_const') or []) if c}
+    mderived = [n for n in _names(parts['derived']) if n not in bare]
+    if mderived != dump['derived']:
+        return '%s: derived differ: model %s, implementation %s' % (label, mderived[:12], dump['derived'][:12])
     # the node LIST (networkx insertion order): left-hand sides in equation order, then late state / free nodes in the
     # str order of the references of the equation that brings them in - whatever adversary the model was given
     if _names(parts['nodes']) != dump['graph_nodes']:
